@@ -59,7 +59,7 @@ def cases(tier, seed):
 def gen_bounds(g, dt, d):
     lo, hi = [], []
     for _ in range(d):
-        wexp = g.uniform(-6, 6) if dt == "float64" else g.uniform(-3, 4)
+        wexp = g.uniform(-12, 6) if dt == "float64" else g.uniform(-4, 4)
         w = 10**wexp
         omax = 8 if dt == "float64" else 3
         off = g.uniform(-1, 1) * w * 10 ** g.uniform(0, omax) * (g.random() < 0.6)
@@ -154,7 +154,7 @@ def gen_points(g, spec, n, dt):
                 sc = max(10 ** g.uniform(-2, 2), abs(base) * rel)
                 x[:, j] = base - np.abs(g.standard_normal(n)) * sc - 1e-3 * sc
             else:
-                x[:, j] = g.standard_normal(n) * 10 ** g.uniform(-3, 3)
+                x[:, j] = g.standard_normal(n) * 10 ** (g.uniform(-12, 3) if dt == "float64" else g.uniform(-5, 3))
     x = x.astype(dt).astype(float)
     # clamp bounded coordinates that rounding pushed outside [lo, hi]
     for j, r in enumerate(roles):
@@ -252,6 +252,18 @@ def judge_diag(spec, xpn, dt, g, counters, viol):
     def where(msg):
         return f"{kind} d={d} xp={xpn} {dt} flags={spec.get('b2u')},{spec.get('bt')},{spec.get('affine')},{spec.get('types')} lo={lo.tolist()} hi={hi.tolist()} :: {msg}"
 
+    # ---- the same instance may have been fitted before on other data (re-fit must fully replace the fitted state)
+    if g.random() < 0.5:
+        xold, _ = gen_points(g, spec, int(g.choice([8, 64])), dt)
+        for j, r in enumerate(roles):
+            if r == "free":
+                xold[:, j] = xold[:, j] * 10 ** g.uniform(-3, 3) + g.normal()
+        xold = xold.astype(dt).astype(float)
+        if np.all(xold.std(axis=0) > 0) or not (kind == "affine" or spec.get("affine")):
+            t.fit(arr(xold))
+            if t64 is not t:
+                t64.fit(arr(xold, "float64"))
+            counters["refits"] += 1
     # ---- fit == forward (bit for bit)
     yfit = to_np(t.fit(arr(xfit)))
     if t64 is not t:
